@@ -276,6 +276,10 @@ func (e *Env) frLoad(p Ptr) Value {
 	}
 	c, ok := st.cellFor(p.H, elem)
 	if !ok {
+		if p.H.IsInt() && p.Elem != nil {
+			// dereference of nil inside a guarded contract expression: an arbitrary value
+			return st.symValue(p.Elem, UF("nilderef", SInt, Str(typeKey(p.Elem))))
+		}
 		fail("contract: load from unknown cell %s", p.H)
 	}
 	v, err := st.getPath(c.V, p.Path)
@@ -759,6 +763,9 @@ func (e *Env) havocLvalue(x ast.Expr) {
 		}
 	}
 	p, t := e.lvalue(x)
+	if p.H.IsInt() && p.H.I.Sign() == 0 {
+		return // modifies through a nil pointer: nothing to havoc
+	}
 	nv := e.st.freshValue(t, "mod."+strings.ReplaceAll(exprStr(x), " ", ""))
 	e.storePtr(p, nv, t)
 }
